@@ -436,11 +436,11 @@ Proof.
         apply (all_some_idx_seq (pre ++ [next]) post []).
         rewrite app_nil_r, <- app_assoc. exact Hnd.
       + intros a. rewrite neighbour_index_nbs, Hnbs, app_nil_r, <- app_assoc. reflexivity. }
-  rewrite Hkis.
+  unfold id, wire in *. rewrite Hkis.
   (* bra positions *)
   assert (Hbis : all_some (map (neighbour_index bn) L) = Some (map (pos_in nb_b) L)).
   { apply all_some_total. intros a Ha. rewrite neighbour_index_nbs. apply pos_in_spec. apply HLB. exact Ha. }
-  rewrite Hbis.
+  unfold id, wire in *. rewrite Hbis.
   (* the ket-side legs are 2, 3, ..., then 1 *)
   assert (Hlegs : map (fun ki => ki + 1 + (if Nat.ltb ki (length pre) then 1 else 0))
                     (seq 0 (length pre) ++ seq (S (length pre)) (length post)) = seq 2 (length L)).
@@ -449,7 +449,7 @@ Proof.
       destruct (Nat.ltb_spec i (length pre)); lia.
     - replace (2 + length pre) with (S (length pre) + 1) by lia. rewrite <- map_add_seq.
       apply map_ext_in. intros i Hi. apply in_seq in Hi. destruct (Nat.ltb_spec i (length pre)); lia. }
-  rewrite Hlegs. rewrite nvirt_nbs. fold nb_b.
+  unfold id, wire in *. rewrite Hlegs. rewrite nvirt_nbs. fold nb_b.
   assert (HposB : forall a, In a L -> pos_in nb_b a < length nb_b /\ pos_in nb_b a <> jb).
   { intros a Ha. destruct (pos_in_spec nb_b a (HLB a Ha)) as (_ & H1 & H2). split; [exact H1|].
     intros E. apply HnextL. replace next with a; [exact Ha|]. apply (pos_in_inj nb_b); auto. }
